@@ -121,6 +121,7 @@ use vstd::slice::*;
 use std::convert::TryInto;
 use core::ops::Range;
 use std::collections::HashMap;
+use vstd::std_specs::iter::IteratorSpec;
 
 verus! {
 
@@ -1259,6 +1260,196 @@ pub open spec fn typeref_ok(t0: Seq<Tok>, res: Result<TypeRef, Error>, t1: Seq<T
     parse_type_ref(t0) is Some ==> res is Ok && res->Ok_0.view() == parse_type_ref(t0)->Some_0.0 && t1 == parse_type_ref(t0)->Some_0.1
 }
 
+
+/// every consumption fact the straight-line arms need, once: `suffix_of` is transitive and bounds the length
+pub proof fn lemma_suffix_all()
+    ensures
+        forall|a: Seq<u8>, b: Seq<u8>| #[trigger] suffix_of(a, b) ==> b.len() <= a.len(),
+        forall|a: Seq<u8>, b: Seq<u8>, c: Seq<u8>| #![trigger suffix_of(a, b), suffix_of(b, c)] suffix_of(a, b) && suffix_of(b, c) ==> suffix_of(a, c),
+        forall|a: Seq<u8>| #[trigger] suffix_of(a, a),
+{
+    assert forall|a: Seq<u8>, b: Seq<u8>| #[trigger] suffix_of(a, b) implies b.len() <= a.len() by {
+        lemma_suffix_len(a, b);
+    }
+    assert forall|a: Seq<u8>, b: Seq<u8>, c: Seq<u8>| #![trigger suffix_of(a, b), suffix_of(b, c)] suffix_of(a, b) && suffix_of(b, c) implies suffix_of(a, c) by {
+        lemma_suffix_trans(a, b);
+    }
+    assert forall|a: Seq<u8>| #[trigger] suffix_of(a, a) by {
+        lemma_suffix_refl(a);
+    }
+}
+
+
+/// tag of a decoded content (`ItemContent::get_ref_number`)
+pub open spec fn content_ref_of(c: ItemContent) -> u8 {
+    match c {
+        ItemContent::Deleted(_) => 1,
+        ItemContent::JSON(_) => 2,
+        ItemContent::Binary(_) => 3,
+        ItemContent::String(_) => 4,
+        ItemContent::Embed(_) => 5,
+        ItemContent::Format(_, _) => 6,
+        ItemContent::Type(_) => 7,
+        ItemContent::Any(_) => 8,
+        ItemContent::Doc(_, _) => 9,
+    }
+}
+
+pub open spec fn known_content_ref(k: u8) -> bool {
+    1 <= k <= 9
+}
+
+/// the only error a well-formed content may still produce: `try_reserve` reported an allocation failure (JSON / Any arms)
+pub open spec fn out_of_memory<T>(res: Result<T, Error>, info: u8) -> bool {
+    res is Err && res->Err_0 is NotEnoughMemory && (info & 0x0f == 2 || info & 0x0f == 8)
+}
+
+/// (V) of ItemContent::decode: the decoded content is exactly what the arm's wire grammar says
+pub open spec fn content_ok(info: u8, t0: Seq<Tok>, res: Result<ItemContent, Error>, t1: Seq<Tok>) -> bool {
+    parse_content(info, t0) is Some ==> out_of_memory(res, info)
+        || (res is Ok && content_is(res->Ok_0, parse_content(info, t0)->Some_0.0) && t1 == parse_content(info, t0)->Some_0.1)
+}
+
+/// (R) of ItemContent::decode: what `ItemContent::encode` writes for `c` (unit header: `content_toks(c)`), followed by anything,
+/// is read back as `c`, and the reader stops exactly behind it
+pub open spec fn content_round_trip(info: u8, t0: Seq<Tok>, res: Result<ItemContent, Error>, t1: Seq<Tok>) -> bool {
+    forall|c: Content, rest: Seq<Tok>| content_wf(c) && info & 0x0f == content_ref(c) && t0 == #[trigger] (content_toks(c) + rest)
+        ==> out_of_memory(res, info) || (res is Ok && content_is(res->Ok_0, c) && t1 == rest)
+}
+
+/// the JSON arm after `let len = decoder.read_len()?`: IF the content parses, `ta` (the unread tokens) are `n` strings and
+/// they ARE the content
+pub open spec fn json_link(info: u8, t0: Seq<Tok>, ta: Seq<Tok>, n: nat) -> bool {
+    parse_content(info, t0) is Some ==> rd_strings(ta, n) is Some
+        && parse_content(info, t0) == Some((Content::Json(rd_strings(ta, n)->Some_0.0), rd_strings(ta, n)->Some_0.1))
+}
+
+pub open spec fn any_link(info: u8, t0: Seq<Tok>, ta: Seq<Tok>, n: nat) -> bool {
+    parse_content(info, t0) is Some ==> rd_anys(ta, n) is Some
+        && parse_content(info, t0) == Some((Content::Any(rd_anys(ta, n)->Some_0.0), rd_anys(ta, n)->Some_0.1))
+}
+
+pub proof fn lemma_content_round_trip(info: u8, t0: Seq<Tok>, res: Result<ItemContent, Error>, t1: Seq<Tok>)
+    requires
+        content_ok(info, t0, res, t1),
+    ensures
+        content_round_trip(info, t0, res, t1),
+{
+    assert forall|c: Content, rest: Seq<Tok>| content_wf(c) && info & 0x0f == content_ref(c) && t0 == #[trigger] (content_toks(c) + rest)
+        implies out_of_memory(res, info) || (res is Ok && content_is(res->Ok_0, c) && t1 == rest) by {
+        lemma_parse_content(info, c, rest);
+    }
+}
+
+/// the JSON loop after `i` rounds: `acc` = the strings read so far, `tc` = the unread tokens.  IF the tokens at the start of
+/// the loop (`ta`) are `n` strings, then the rest of them is still ahead and `acc` is the front part of the result.
+pub open spec fn strs_inv(ta: Seq<Tok>, n: nat, acc: Seq<Str>, tc: Seq<Tok>, i: nat) -> bool {
+    rd_strings(ta, n) is Some ==> {
+        &&& rd_strings(tc, (n - i) as nat) is Some
+        &&& rd_strings(ta, n)->Some_0.0 == acc + rd_strings(tc, (n - i) as nat)->Some_0.0
+        &&& rd_strings(ta, n)->Some_0.1 == rd_strings(tc, (n - i) as nat)->Some_0.1
+    }
+}
+
+pub proof fn lemma_strs_start(ta: Seq<Tok>, n: nat)
+    ensures
+        strs_inv(ta, n, Seq::empty(), ta, 0),
+{
+    if rd_strings(ta, n) is Some {
+        assert(Seq::<Str>::empty() + rd_strings(ta, n)->Some_0.0 =~= rd_strings(ta, n)->Some_0.0);
+    }
+}
+
+/// one more string: the pairing law of `read_string` applies (the head token IS a string) and the invariant moves on
+pub proof fn lemma_strs_step(ta: Seq<Tok>, n: nat, acc: Seq<Str>, tc: Seq<Tok>, i: nat)
+    requires
+        strs_inv(ta, n, acc, tc, i),
+        i < n,
+    ensures
+        rd_strings(ta, n) is Some ==> rd_string(tc) is Some && strs_inv(ta, n, acc.push(rd_string(tc)->Some_0.0), rd_string(tc)->Some_0.1, i + 1),
+{
+    if rd_strings(ta, n) is Some {
+        let m = (n - i) as nat;
+        assert(rd_strings(tc, m) is Some);
+        let (s, t1) = rd_string(tc)->Some_0;
+        assert((m - 1) as nat == (n - (i + 1)) as nat);
+        let v = rd_strings(t1, (m - 1) as nat)->Some_0.0;
+        assert(acc + (seq![s] + v) =~= acc.push(s) + v);
+    }
+}
+
+pub proof fn lemma_strs_done(ta: Seq<Tok>, n: nat, acc: Seq<Str>, tc: Seq<Tok>)
+    requires
+        strs_inv(ta, n, acc, tc, n),
+    ensures
+        rd_strings(ta, n) is Some ==> rd_strings(ta, n) == Some((acc, tc)),
+{
+    if rd_strings(ta, n) is Some {
+        assert((n - n) as nat == 0);
+        assert(acc + Seq::<Str>::empty() =~= acc);
+    }
+}
+
+pub open spec fn anys_inv(ta: Seq<Tok>, n: nat, acc: Seq<Any>, tc: Seq<Tok>, i: nat) -> bool {
+    rd_anys(ta, n) is Some ==> {
+        &&& rd_anys(tc, (n - i) as nat) is Some
+        &&& rd_anys(ta, n)->Some_0.0 == acc + rd_anys(tc, (n - i) as nat)->Some_0.0
+        &&& rd_anys(ta, n)->Some_0.1 == rd_anys(tc, (n - i) as nat)->Some_0.1
+    }
+}
+
+pub proof fn lemma_anys_start(ta: Seq<Tok>, n: nat)
+    ensures
+        anys_inv(ta, n, Seq::empty(), ta, 0),
+{
+    if rd_anys(ta, n) is Some {
+        assert(Seq::<Any>::empty() + rd_anys(ta, n)->Some_0.0 =~= rd_anys(ta, n)->Some_0.0);
+    }
+}
+
+pub proof fn lemma_anys_step(ta: Seq<Tok>, n: nat, acc: Seq<Any>, tc: Seq<Tok>, i: nat)
+    requires
+        anys_inv(ta, n, acc, tc, i),
+        i < n,
+    ensures
+        rd_anys(ta, n) is Some ==> rd_any(tc) is Some && anys_inv(ta, n, acc.push(rd_any(tc)->Some_0.0), rd_any(tc)->Some_0.1, i + 1),
+{
+    if rd_anys(ta, n) is Some {
+        let m = (n - i) as nat;
+        assert(rd_anys(tc, m) is Some);
+        let (s, t1) = rd_any(tc)->Some_0;
+        assert((m - 1) as nat == (n - (i + 1)) as nat);
+        let v = rd_anys(t1, (m - 1) as nat)->Some_0.0;
+        assert(acc + (seq![s] + v) =~= acc.push(s) + v);
+    }
+}
+
+pub proof fn lemma_anys_done(ta: Seq<Tok>, n: nat, acc: Seq<Any>, tc: Seq<Tok>)
+    requires
+        anys_inv(ta, n, acc, tc, n),
+    ensures
+        rd_anys(ta, n) is Some ==> rd_anys(ta, n) == Some((acc, tc)),
+{
+    if rd_anys(ta, n) is Some {
+        assert((n - n) as nat == 0);
+        assert(acc + Seq::<Any>::empty() =~= acc);
+    }
+}
+
+pub proof fn lemma_strs_view_push(v: Seq<String>, s: String)
+    ensures
+        strs_view(v.push(s)) == strs_view(v).push(s@),
+{
+    assert(strs_view(v.push(s)) =~= strs_view(v).push(s@));
+}
+
+/// (V) of Options::decode: guid string, then the options value; both consumed.  (How the value's keys become option fields is
+/// not modelled: the loop is dropped from the region, see EXCLUDED.)
+pub open spec fn options_ok(t0: Seq<Tok>, res: Result<Options, Error>, t1: Seq<Tok>) -> bool {
+    rd_string(t0) is Some && rd_any(rd_string(t0)->Some_0.1) is Some ==>
+        res is Ok && res->Ok_0.guid@ == rd_string(t0)->Some_0.0 && t1 == rd_any(rd_string(t0)->Some_0.1)->Some_0.1
+}
+
 /// consuming a prefix of what is left after consuming a prefix (text of units/dec_comp/env.rs)
 pub proof fn lemma_suffix_step(s0: Seq<u8>, s1: Seq<u8>, s2: Seq<u8>)
     requires
@@ -1349,6 +1540,127 @@ impl ItemContent {
     @ret r
     @sig
         ensures r == ic_len(*self, kind),
+    @*/
+}
+
+impl Options {
+    // real: `impl Decode for Options` -- the WHOLE body as a region so that the in-memory option-parsing loop can be dropped
+    /*@extract yrs/src/doc.rs | impl Decode for Options | region decode | arm=fn decode<D: Decoder>(decoder: &mut D) -> Result<Self, Error> | label=options_decode
+    @header
+        pub fn decode<D: Decoder>(decoder: &mut D) -> (res: Result<Options, Error>)
+    @drop `for (k, v) in opts.iter()`
+    @sig
+        requires
+            old(decoder).wf(),
+        ensures
+            final(decoder).wf(),
+            suffix_of(old(decoder).rest(), final(decoder).rest()),
+            res is Ok ==> final(decoder).rest().len() < old(decoder).rest().len(),
+            options_ok(old(decoder).toks(), res, final(decoder).toks()),
+    @start
+        proof { lemma_suffix_all(); }
+    @*/
+}
+
+impl ItemContent {
+    /*@extract yrs/src/block.rs | impl ItemContent | fn decode | label=content_decode
+    @ret res
+    @sig
+        requires
+            old(decoder).wf(),
+        ensures
+            final(decoder).wf(),
+            suffix_of(old(decoder).rest(), final(decoder).rest()),
+            // (T) SIZE: one element per consumed byte (JSON: v1 decoders, see O-CC-2); a buffer is a slice of the consumed input
+            res is Ok && (D::v1() || !(res->Ok_0 is JSON)) ==> content_elems(res->Ok_0) <= consumed(old(decoder).rest(), final(decoder).rest()),
+            res is Ok && res->Ok_0 is Binary ==> res->Ok_0->Binary_0@.len() < consumed(old(decoder).rest(), final(decoder).rest()),
+            // (V)
+            content_ok(ref_num, old(decoder).toks(), res, final(decoder).toks()),
+            // unknown_ref_is_error
+            !known_content_ref(ref_num & 0x0f) ==> res is Err && res->Err_0 is UnexpectedValue
+                && final(decoder).rest() == old(decoder).rest() && final(decoder).toks() == old(decoder).toks(),
+            // the variant is the one the tag names, whatever the tokens
+            res is Ok ==> content_ref_of(res->Ok_0) == ref_num & 0x0f,
+            // (R)
+            content_round_trip(ref_num, old(decoder).toks(), res, final(decoder).toks()),
+    @start
+        let ghost s0 = decoder.rest();
+        let ghost t0 = decoder.toks();
+        proof {
+            lemma_suffix_all();
+            lemma_dec_buf_bounded(s0);
+        }
+    @after 1 `stmt:let len`
+        let ghost s1 = decoder.rest();
+        let ghost ta = decoder.toks();
+        proof {
+            lemma_strs_start(ta, len as nat);
+            assert(json_link(ref_num, t0, ta, len as nat));
+        }
+    @loop 1 iter=it
+        invariant
+            s0 == old(decoder).rest(),
+            t0 == old(decoder).toks(),
+            ref_num & 0x0f == 2,
+            json_link(ref_num, t0, ta, len as nat),
+            decoder.wf(),
+            suffix_of(s0, s1),
+            suffix_of(s1, decoder.rest()),
+            it.snapshot@.remaining().len() == len,
+            0 <= it.index@ <= len,
+            buf@.len() == it.index@,
+            D::v1() ==> decoder.rest().len() + buf@.len() <= s1.len(),
+            strs_inv(ta, len as nat, strs_view(buf@), decoder.toks(), it.index@ as nat),
+    @loopstart 1
+        let ghost b0 = buf@;
+        let ghost sa = decoder.rest();
+        proof {
+            lemma_suffix_all();
+            lemma_strs_step(ta, len as nat, strs_view(b0), decoder.toks(), it.index@ as nat);
+        }
+    @loopend 1
+        proof {
+            lemma_strs_view_push(b0, buf@.last());
+            assert(buf@ == b0.push(buf@.last()));
+        }
+    @afterloop 1
+        proof {
+            lemma_suffix_all();
+            lemma_strs_done(ta, len as nat, strs_view(buf@), decoder.toks());
+        }
+    @after 2 `stmt:let len`
+        let ghost s1 = decoder.rest();
+        let ghost ta = decoder.toks();
+        proof {
+            lemma_anys_start(ta, len as nat);
+            assert(any_link(ref_num, t0, ta, len as nat));
+        }
+    @loop 2
+        invariant
+            s0 == old(decoder).rest(),
+            t0 == old(decoder).toks(),
+            ref_num & 0x0f == 8,
+            any_link(ref_num, t0, ta, len as nat),
+            decoder.wf(),
+            suffix_of(s0, s1),
+            suffix_of(s1, decoder.rest()),
+            0 <= i <= len,
+            values@.len() == i,
+            len <= u32::MAX,
+            decoder.rest().len() + values@.len() <= s1.len(),
+            anys_inv(ta, len as nat, values@, decoder.toks(), i as nat),
+        decreases len - i,
+    @loopstart 2
+        let ghost v0 = values@;
+        proof {
+            lemma_suffix_all();
+            lemma_anys_step(ta, len as nat, v0, decoder.toks(), i as nat);
+        }
+    @afterloop 2
+        proof {
+            lemma_suffix_all();
+            lemma_anys_done(ta, len as nat, values@, decoder.toks());
+        }
     @*/
 }
 
